@@ -6,6 +6,7 @@ package main
 // (independent reference tracker below, exact rationals).
 
 import (
+	"sync/atomic"
 	"fmt"
 	"math"
 	"math/big"
@@ -495,7 +496,53 @@ func kxCheck(c *h.Ctx, bucket, kind string, ops []kop) {
 	c.Case(bucket, line, nontrivial)
 }
 
+type c20src struct{ n uint64 }
+
+func (s *c20src) NbRequests() uint64 { return atomic.LoadUint64(&s.n) }
+
+// c20PublicAverage: the public, wall-clock entry point Average() of a started meter. Two reads a few dozen
+// milliseconds apart with the counter changed in between: each is the increase since the first non-zero observation
+// over the time since then AS OF THAT READ (bounds measured around the calls, so a slow machine cannot fail it).
+func c20PublicAverage(c *h.Ctx) {
+	src := &c20src{}
+	atomic.StoreUint64(&src.n, 10)
+	m := kxps.NewKrps(nil, src)
+	if err := m.Start(); err != nil {
+		c.Hold(false, "average.public", "krps.Start", err.Error(), "nil")
+		return
+	}
+	defer m.Close()
+	lo0 := time.Now()
+	a0 := m.Average() // first non-zero observation: anchors, reports 0
+	hi0 := time.Now()
+	time.Sleep(40 * time.Millisecond)
+	atomic.StoreUint64(&src.n, 1010)
+	lo1 := time.Now()
+	a1 := m.Average()
+	hi1 := time.Now()
+	time.Sleep(25 * time.Millisecond)
+	atomic.StoreUint64(&src.n, 5010)
+	lo2 := time.Now()
+	a2 := m.Average()
+	hi2 := time.Now()
+	within := func(a float64, inc int64, lo, hi time.Duration) bool {
+		msLo, msHi := int64(lo/time.Millisecond)-1, int64(hi/time.Millisecond)+1
+		if msLo < 1 {
+			msLo = 1
+		}
+		return a >= float64(inc)*1000/float64(msHi)-1e-9 && a <= float64(inc)*1000/float64(msLo)+1e-9
+	}
+	// the anchor was taken at the first Average() or by the sampler goroutine Start() launched: between Start and hi0
+	in := "krps public Average(): count 10 at start; +1000 after 40 ms; +4000 after 25 ms more"
+	ok1 := within(a1, 1000, lo1.Sub(hi0), hi1.Sub(lo0)+5*time.Millisecond)
+	ok2 := within(a2, 5000, lo2.Sub(hi0), hi2.Sub(lo0)+5*time.Millisecond)
+	c.Hold(a0 == 0 && ok1 && ok2, "average.public", in, fmt.Sprintf("a0=%v a1=%v a2=%v (elapsed %v / %v)", a0, a1, a2, hi1.Sub(lo0), hi2.Sub(lo0)),
+		"0, then 1000/elapsed and 5000/elapsed per second as of each read")
+	c.Case("average/public-wall-clock", in, true)
+}
+
 func c20(c *h.Ctx) {
+	c20PublicAverage(c)
 	r := c.R
 
 	// 0. regression corpus: the repository's own scripted walk, and the boundary of the stated domain.
